@@ -163,6 +163,15 @@ func genPrintTree(r *rand.Rand, n int, thorough bool, emit func(string)) {
 	for i, c := 0, treegen.CountExprs(2); i < c; i++ {
 		emitTree(stmtListStr(treegen.ExprProgram(treegen.ExprAt(2, i)).Statements))
 	}
+	// directed families (see internal/treegen/families.go)
+	for _, e := range treegen.SignAdjacency() {
+		emitTree(stmtListStr(treegen.ExprProgram(e).Statements))
+	}
+	for i, e := range treegen.UpdateOverAny() {
+		if thorough || i%3 == int(r.Int63()%3) {
+			emit("PRINTT " + cfgs[i%len(cfgs)] + " " + stmtListStr(treegen.ExprProgram(e).Statements))
+		}
+	}
 	per := 40
 	if thorough {
 		per = 4000
